@@ -163,6 +163,9 @@ Proof.
   - (* StallTick *) conn_case s p G. pose proof (allc_get _ _ _ _ H G) as Hc. inversion A. unfold inv_aff. cbn.
     apply allc_set; [assumption|]. intros c0 E. inversion E. unfold aff_ok in *. cbn. assumption.
   - (* Endgame *) inversion A. assumption.
+  - (* LoseInterest *) conn_case s p G. inversion A. subst. assumption.
+  - (* QueueChoke *) conn_case s p G. inversion A. subst. assumption.
+  - (* QueueUnchoke *) conn_case s p G. inversion A. subst. assumption.
   - (* SnapConn *) conn_case s p G. match type of A with (if ?b then _ else _) = _ => destruct b end; [|discriminate]. inversion A. subst. assumption.
   - (* SnapGlobal *) match type of A with (if ?b then _ else _) = _ => destruct b end; [|discriminate]. inversion A. subst. assumption.
 Qed.
